@@ -40,7 +40,12 @@ def signature(inst, res, f):
     holders = [loc for loc, v in store.items() if state in v]
     prod = [k for k, e in inst.const["tests"].items() if state in e["sets"]]
     executed = any(e["a"] in ("start", "prestart") and e.get("t") in prod for e in res["events"])
-    if holders and all(h not in ("shared", w) for h in holders) and not executed:
+    # the residue finding F-C01-1: the state was initially only in other workers' own pools and no execution of its producer has
+    # passed before this start (an execution still in flight, or failed, on yet another worker does not make it available)
+    starts = [e for e in res["events"] if e["a"] == "start" and e.get("t") == t and e["w"] == w]
+    upto = starts[0]["i"] if starts else 10 ** 9
+    produced = any(e["a"] == "endrun" and e.get("t") in prod and e.get("s") in ("PASS", "WARN") and e["i"] < upto for e in res["events"])
+    if holders and all(h not in ("shared", w) for h in holders) and not produced:
         return "residue-only-in-foreign-own-pool"
     return "missing-state test=%s producer-executed=%s initially-in=%s" % (inst.const["tests"][t]["name"].split(".vms.")[0], executed, sorted(holders))
 
